@@ -532,6 +532,78 @@ fn main() {
                 let v = serde_json::json!({ "statics": st.statics, "mods": st.mods });
                 (v.to_string(), (1usize, src.lines().count()))
             }
+            "serde_attrs" => {
+                // syntactic side condition (C17): the derive list of a type and every `serde(..)` attribute on the type,
+                // its variants and its fields, with `cfg_attr(cond, ..)` expanded under the unit's features.
+                // NOTE: works on the ORIGINAL file text (the cfg filter clears attributes).
+                let orig = syn::parse_file(&src).unwrap_or_else(|e| fail("parse", format!("{}: {}", path, e)));
+                let ident = s(item, "ident").expect("ident");
+                fn metas(attrs: &[Attribute], features: &BTreeSet<String>, out: &mut Vec<Meta>) {
+                    for a in attrs {
+                        if a.path().is_ident("cfg_attr") {
+                            if let Meta::List(l) = &a.meta {
+                                if let Ok(items) = l.parse_args_with(syn::punctuated::Punctuated::<Meta, Token![,]>::parse_terminated) {
+                                    let mut it = items.into_iter();
+                                    if let Some(cond) = it.next() {
+                                        if cfg::eval_meta(&cond, features) { for m in it { out.push(m); } }
+                                    }
+                                }
+                            }
+                        } else {
+                            out.push(a.meta.clone());
+                        }
+                    }
+                }
+                let mut derives: Vec<String> = vec![];
+                let mut serde: Vec<String> = vec![];
+                let mut found = false;
+                let mut take = |attrs: &[Attribute], wher: &str, derives: &mut Vec<String>, serde: &mut Vec<String>| {
+                    let mut ms = vec![];
+                    metas(attrs, &features, &mut ms);
+                    for m in ms {
+                        if m.path().is_ident("derive") {
+                            if let Meta::List(l) = &m {
+                                if let Ok(ps) = l.parse_args_with(syn::punctuated::Punctuated::<syn::Path, Token![,]>::parse_terminated) {
+                                    for p_ in ps { derives.push(p_.segments.last().map(|x| x.ident.to_string()).unwrap_or_default()); }
+                                }
+                            }
+                        } else if m.path().is_ident("serde") {
+                            serde.push(format!("{}: {}", wher, norm(&m)));
+                        }
+                    }
+                };
+                let mut span = (1usize, 1usize);
+                for it in &orig.items {
+                    match it {
+                        Item::Struct(st) if st.ident == ident => {
+                            found = true; span = full_span(it);
+                            take(&st.attrs, "type", &mut derives, &mut serde);
+                            for f in st.fields.iter() { take(&f.attrs, "field", &mut derives, &mut serde); }
+                        }
+                        Item::Enum(en) if en.ident == ident => {
+                            found = true; span = full_span(it);
+                            take(&en.attrs, "type", &mut derives, &mut serde);
+                            for v in en.variants.iter() { take(&v.attrs, "variant", &mut derives, &mut serde); for f in v.fields.iter() { take(&f.attrs, "field", &mut derives, &mut serde); } }
+                        }
+                        _ => {}
+                    }
+                }
+                if !found { fail("anchor-lost", format!("{}: type {} in {}", name, ident, file_rel)); }
+                // hand-written impls of the serde traits for the type
+                let mut manual: Vec<String> = vec![];
+                for it in &orig.items {
+                    if let Item::Impl(im) = it {
+                        if type_ident(&im.self_ty).as_deref() == Some(ident.as_str()) {
+                            if let Some((_, p_, _)) = &im.trait_ {
+                                let t = p_.segments.last().map(|x| x.ident.to_string()).unwrap_or_default();
+                                if t == "Serialize" || t == "Deserialize" { manual.push(t); }
+                            }
+                        }
+                    }
+                }
+                let v = serde_json::json!({ "derives": derives, "serde_attrs": serde, "manual_impls": manual });
+                (v.to_string(), span)
+            }
             "binders" => {
                 // syntactic side condition: how often the fn body (re)binds the identifier `binder` (let / closure
                 // parameter / match arm patterns), and whether the fn parameter of that name is declared `mut`
